@@ -1,7 +1,7 @@
 """C06  DEX strings decode to exactly the UTF-16 text their MUTF-8 bytes encode  (engine E2).
 
 Space: string pools built from
-  * every single UTF-16 code unit of UNITS (13 boundary values incl. 0000, surrogate range edges, ffff),
+  * every single UTF-16 code unit of UNITS (15 boundary values incl. 0000, surrogate range edges, the byte-order marks feff/fffe, ffff),
   * every ordered pair of them (all paired / unpaired / reversed surrogate combinations, the 2-byte NUL form),
   * (thorough) every ordered triple,
   * strings of every length 0..300 of a 1-byte, a 2-byte and a 3-byte unit (crosses the 128-byte read chunk of the
@@ -18,7 +18,7 @@ from mc.core import Acc, h8
 
 PROPERTY = "C06"
 LEVEL = "exploration"
-RULE = ("string pools over a 13-value UTF-16 code-unit alphabet: all singles, all ordered pairs (thorough: triples), all lengths "
+RULE = ("string pools over a 15-value UTF-16 code-unit alphabet: all singles, all ordered pairs (thorough: triples), all lengths "
         "0..300 of 1/2/3-byte units; each string observed through get_strings, ClassManager.get_string, field/method/class names "
         "and const-string(/jumbo) operands; non-trivial = string contains a non-ASCII unit, NUL, surrogate, or is >= 127 bytes long; "
         "distinct by string content")
@@ -34,7 +34,7 @@ MANIFEST = {
     "note": "Trusted: gen/dexgen's MUTF-8 encoder and DEX layout (conformance-checked).",
 }
 
-UNITS = [0x0000, 0x0001, 0x007f, 0x0080, 0x07ff, 0x0800, 0xd7ff, 0xd800, 0xdbff, 0xdc00, 0xdfff, 0xe000, 0xffff]
+UNITS = [0x0000, 0x0001, 0x007f, 0x0080, 0x07ff, 0x0800, 0xd7ff, 0xd800, 0xdbff, 0xdc00, 0xdfff, 0xe000, 0xfeff, 0xfffe, 0xffff]
 
 
 def mk(units):
@@ -52,8 +52,8 @@ def pools(ctx):
     singles = [mk([u]) for u in UNITS]
     out.append(("singles", singles))
     pairs = [mk([a, b]) for a in UNITS for b in UNITS]
-    for i in range(0, len(pairs), 13):
-        out.append(("pairs%d" % (i // 13), pairs[i:i + 13]))
+    for i in range(0, len(pairs), 15):
+        out.append(("pairs%d" % (i // 15), pairs[i:i + 15]))
     if ctx.thorough:
         tr = [mk(list(t)) for t in itertools.product(UNITS, repeat=3)]
         for i in range(0, len(tr), 40):
@@ -65,6 +65,14 @@ def pools(ctx):
             for n in range(lo, min(lo + 10, 301)):
                 ss.append(mk(([lead] if lead is not None else []) + [unit] * n))
             out.append(("%s:%d" % (name, lo), ss))
+    # byte-order-mark look-alikes as FIRST unit, followed by each special unit (a decoder that round-trips through UTF-16 with
+    # BOM detection eats or misreads them only on its slow path, i.e. when the string also holds NUL / surrogates)
+    bom = []
+    for lead in (0xfeff, 0xfffe):
+        for sp in ([0x0000], [0xd800], [0xdc00], [0xd800, 0xdc00], [0x61], [0x00e9]):
+            bom.append(mk([lead] + sp))
+            bom.append(mk([lead, 0x61] + sp + [0x62]))
+    out.append(("bomled", bom))
     # ONE special unit (NUL / lone or paired surrogate / 2-byte / 3-byte unit) at every byte phase around the reader's
     # 128-byte chunk boundaries (prefix of n ASCII bytes, n around 127, 255, 383), as the only non-ASCII content
     specials = [[0x0000], [0xd800], [0xdc00], [0xdfff], [0xd800, 0xdc00], [0x00e9], [0x4e2d]]
